@@ -1064,11 +1064,15 @@ handleConnection(void* parameter)
     {
         DEBUG_PRINT("Failed to create socket\n");
 
+        /* report the failed attempt (CS104_Connection_connect waits for running or failure) */
+        event = CS104_CONNECTION_FAILED;
+
 #if (CONFIG_USE_SEMAPHORES == 1)
         Semaphore_wait(self->conStateLock);
 #endif /* (CONFIG_USE_SEMAPHORES == 1) */
 
         self->running = false;
+        self->failure = true;
 
 #if (CONFIG_USE_SEMAPHORES == 1)
         Semaphore_post(self->conStateLock);
